@@ -174,6 +174,16 @@ def isLit : SExpr → Bool
   | .int _ | .bool _ | .rat _ _ => true
   | _ => false
 
+/-- what classifies as `FullOp` at the root: a scalar constant (`SCALAR_CLASSES`) or a pymbolic
+    `NaN` node whose type is absent or inexact (`pt.full(shape, nan)`).  The serialiser spells
+    every constant outside the exact value domain — such a NaN node, a `nan`, `±inf`, a non-real
+    complex — as `.nan`; its value is `undef`.  A NaN node typed with an INTEGER or BOOL type
+    (there is no such value; the real raiser refuses it since 35c41c4) is spelled as a call of
+    the unknown function `pytato.nan_as_<dtype>`: `undef` as a value, matched by no stage. -/
+def isFill : SExpr → Bool
+  | .int _ | .bool _ | .rat _ _ | .nan => true
+  | _ => false
+
 /-- operator and children of a binary-operation expression -/
 def binChildren : SExpr → Option (BinOp × SExpr × SExpr)
   | .quot a c => some (.truediv, a, c)
@@ -341,7 +351,7 @@ def tryBroadcast (e : SExpr) (shape : Shape) (bs : List (String × Shape)) : Opt
 /-- `index_lambda_to_high_level_op`; `none` = `UnknownIndexLambdaExpr` (or a crash) -/
 def raise (e : SExpr) (shape : Shape) (bs : List (String × Shape)) : Option HLO :=
   let inner := dropCasts e
-  if isLit inner then some (.full inner)
+  if isFill inner then some (.full inner)
   else
     (tryBinary inner shape bs).orElse fun _ =>
     (tryCall inner shape bs).orElse fun _ =>
